@@ -110,6 +110,14 @@ class Validator:
         self.n += 1
         return self.pure(n, x)
 
+    # A callable OBJECT that is falsy: whether a validator was given is an `is None` question, never a
+    # truth test (a rule-set object with __len__ == 0 is a legitimate validator).
+    def __len__(self):
+        return 0
+
+    def __bool__(self):
+        return False
+
     def __eq__(self, other):
         return isinstance(other, Validator) and other.spec == self.spec
 
@@ -146,6 +154,25 @@ class Validator:
                 raise exc_class(self.exc)("k-th call fails")
             return x
         raise AssertionError(self.spec)
+
+
+class Recorder:
+    """A notifier that is a falsy callable object (a notifier is called, never truth-tested)."""
+
+    def __init__(self, fn):
+        self.fn = fn
+
+    def __call__(self, *args):
+        return self.fn(*args)
+
+    def __len__(self):
+        return 0
+
+    def __bool__(self):
+        return False
+
+
+TRAIT_SPECS = {"Int": "intonly", "CInt": "toint", "CStr": "tostr", "Range05": "range05", "Any": "id"}
 
 
 # ------------------------------------------------------------------ dict operations
@@ -289,6 +316,46 @@ def random_history(rng, kind="td", maxops=10):
     keys = keys + [("s" if k[0] == "i" else "i") + k[1:] for k in keys]
     ops = [random_op(rng, keys, neg) for _ in range(rng.randint(1, maxops))]
     return "%s|%s|%s|%s|%s|%s" % (kind, kv, vv, ns, init, ";".join(ops))
+
+
+def dict_trait_cases():
+    """The value of a Dict(K, V) trait on a HasTraits owner (TraitDictObject), on a truthy (`tdo`) and on an
+    alive-but-falsy (`tdof`) owner: every mutator with valid / convertible / invalid keys and values."""
+    combos = [("Int", "Int"), ("CStr", "CInt"), ("CInt", "Any"), ("Any", "Range05"), ("Int", "CStr")]
+    for kt, vt in combos:
+        init = {"Int": "[i1:%s,i2:%s]", "CStr": "[s1:%s,s2:%s]", "CInt": "[i1:%s,i2:%s]", "Any": "[i1:%s,s2:%s]"}[kt]
+        good = {"Int": "i4", "CInt": "i4", "Any": "i4", "Range05": "i4", "CStr": "s4"}[vt]
+        init = init % (good, good)
+        keys = ["i1", "s1", "i3", "s3"]
+        vals = ["i5", "s5", "i9"]
+        for kind in ("tdo", "tdof"):
+            for ns in ("r", "ro"):
+                head = "%s|%s|%s|%s|%s|" % (kind, kt, vt, ns, init)
+                for k in keys:
+                    yield head + "di %s;po %s;pd %s i0" % (k, k, k)
+                    for v in vals:
+                        yield head + "si %s %s" % (k, v)
+                        yield head + "sd %s %s" % (k, v)
+                        yield head + "up [%s:%s,i2:%s]" % (k, v, good)
+                        yield head + "iom [%s:%s]" % (k, v)
+                yield head + "pi;cl;cl;si i1 %s" % good
+
+
+def random_dict_trait_history(rng, maxops=8):
+    kt = rng.choice(["Int", "CStr", "CInt", "Any"])
+    vt = rng.choice(["Int", "CInt", "CStr", "Any", "Range05"])
+    kind = rng.choice(["tdo", "tdo", "tdof"])
+    pairs, seen = [], set()
+    for _ in range(rng.randint(0, 4)):
+        k = rand_atom(rng, False)
+        if k in seen:
+            continue
+        seen.add(k)
+        pairs.append("%s:%s" % (k, rand_atom(rng, False)))
+    keys = [p.split(":")[0] for p in pairs]
+    keys = keys + [("s" if k[0] == "i" else "i") + k[1:] for k in keys]
+    ops = [random_op(rng, keys, True) for _ in range(rng.randint(1, maxops))]
+    return "%s|%s|%s|%s|[%s]|%s" % (kind, kt, vt, rng.choice(["r", "ro", "or", ""]), ",".join(pairs), ";".join(ops))
 
 
 def exhaustive_single_ops(tier, kind="td"):
